@@ -76,11 +76,12 @@ Proof.
   rewrite flat_map_map, map_flat_map. apply flat_map_ext_Forall. exact IH.
 Qed.
 
-(* a key as iwe writes it into a link: a note url that is not stripped further *)
-Definition link_key (new : string) : Prop := is_ref_url new = true /\ ends_with MD new = false.
+(* a key as iwe writes it into a link: a note url (the url of a link in the graph is its key as it
+   is, `Key::name`: also a key ending in `.md` - the pinned tree stripped it again - is kept) *)
+Definition link_key (new : string) : Prop := is_ref_url new = true.
 
 Lemma link_key_from_file_name new : ends_with MD new = false -> key_from_file_name new = new.
-Proof. intros H. unfold key_from_file_name. now apply trim_end_matches_none. Qed.
+Proof. intros H. unfold key_from_file_name. now apply strip_md_none. Qed.
 
 Definition occ_text_kept (fx : fixes) (o o' : occ) : Prop :=
   match o, o' with
@@ -96,10 +97,10 @@ Lemma retarget_spec fx old new o :
      occ_key (retarget fx old new o) = Some new /\ occ_text_kept fx o (retarget fx old new o)) /\
   (occ_hits old o = false -> retarget fx old new o = o).
 Proof.
-  intros [Href Hmd]. unfold retarget. split; intros H; rewrite H; [|reflexivity].
+  intros Href. unfold link_key in Href. unfold retarget. split; intros H; rewrite H; [|reflexivity].
   destruct o as [k text rt|u title lt l]; cbn [occ_key occ_text_kept].
   - repeat split.
-  - rewrite Href, (link_key_from_file_name new Hmd). repeat split.
+  - rewrite Href. unfold key_name. repeat split.
 Qed.
 
 Theorem change_key_targets fx old new t :
@@ -158,7 +159,7 @@ Proof.
   1-3: cbn [change_key_inline erase_inline]; f_equal; rewrite map_map; apply map_ext_Forall; exact IH.
   cbn [change_key_inline]. unfold link_hits.
   destruct (is_ref_url u) eqn:Hu; cbn [andb]; [|reflexivity].
-  destruct (String.eqb (key_from_file_name u) old); [|reflexivity].
+  destruct (String.eqb (key_name u) old); [|reflexivity].
   cbn [erase_inline]. now rewrite Hn, Hu.
 Qed.
 
@@ -389,7 +390,7 @@ Section Root.
     assert (Haff_nodup : NoDup (map tn_key aff)) by (apply NoDup_keys_filter, Hnodup).
     exists nk.
     eexists. split; [exact Hnk|]. split.
-    - unfold rename_core. rewrite Hnew, (tl_find_none L new Hfree). cbn [bind]. rewrite Hdoc.
+    - unfold rename_core. rewrite (strip_md_none new Hmd), Hnew, (tl_find_none L new Hfree). cbn [bind]. rewrite Hdoc.
       fold k. rewrite Hnk. cbn [tree_scan bind]. fold aff. fold aff_keys. rewrite Hcanon.
       rewrite (fold_overrides _ otext).
       + cbn [bind alookup]. rewrite String.eqb_refl. cbn [bind]. reflexivity.
